@@ -17,8 +17,8 @@ func init() {
 			"for MTUs {1,2,3,159,160,161,1200,1460,65535} up to 10 000 bytes (thorough: 200 000) and seeded random (length, MTU) pairs; Opus pass-through and " +
 			"OpusPacket on every length 0-320 (plus nil) and random payloads; non-trivial = the input needs at least two fragments or is a boundary case " +
 			"(nil, empty, length == k*MTU); distinct = (payloader, #fragments class, remainder class, MTU class)",
-		Floor:     60,
-		Technique: "runtime monitor: concatenation/fragment-size oracle over an exhaustive (length, MTU) grid; overlap monitor for the Opus pass-through",
+		Floor:       60,
+		Technique:   "runtime monitor: concatenation/fragment-size oracle over an exhaustive (length, MTU) grid; overlap monitor for the Opus pass-through",
 		Assumptions: []string{"inputs are random bytes; the split logic is value-independent (checked by C08's hostile inputs as well)"},
 		Strata: []fw.Stratum{
 			{Name: "grid-len0-320-x-mtu1-320", N: fw.Const(320, 320), Run: c16Grid, Exhaustive: true},
